@@ -21,9 +21,16 @@ TYPES = [
     ("*int", "n", 9, False), ("[]*T", "ts", 9, False), ("map[int]*T", "intToT", 9, False),
     ("struct{ X int }", "val", 9, False),
 ]
-TYPE = {t[0]: t for t in TYPES}
+# types whose generated parameter name is an identifier the matryer template itself writes: `mock` (the receiver) and
+# `callInfo` (the record variable); template/var.go varName renames them to mockParam / callInfoParam
+COLLIDE_TYPES = [
+    ("Mock", "mockParam", 9, True), ("*Mock", "mockParam", 9, True), ("CallInfo", "callInfoParam", 9, True),
+    ("*CallInfo", "callInfoParam", 9, False), ("[]CallInfo", "callInfos", 9, False), ("ext.Mock", "mockParam", 9, False),
+    ("*ext.CallInfo", "callInfoParam", 9, False), ("ext.CallInfo", "callInfoParam", 9, False), ("[]*Mock", "mocks", 9, False),
+]
+TYPE = {t[0]: t for t in TYPES + COLLIDE_TYPES}
 VAR_BASE = {"string": "strings", "int": "ints", "error": "errs", "interface{}": "ifaceVals", "any": "vs", "*T": "ts",
-            "T": "ts", "[]byte": "bytess", "func() int": "fns"}
+            "T": "ts", "[]byte": "bytess", "func() int": "fns", "Mock": "mocks", "*Mock": "mocks", "CallInfo": "callInfos"}
 GENERIC_TYPES = [("K", "v", 9), ("V", "v", 9), ("[]V", "vs", 9), ("map[K]V", "vToV", 9), ("func(K) V", "fn", 9), ("*V", "v", 9)]
 # parameter names: lower-case ASCII, no template local (mock, callInfo), no package qualifier (sync, fmt, context),
 # no two names of one method with the same exported form (C01's findings, owned there)
@@ -162,6 +169,31 @@ def gen_long_method(rng, name):
     return m
 
 
+def gen_collide_method(rng, name):
+    """Unnamed / `_` parameters of local and foreign types named Mock / CallInfo (generated names would be the template's own
+    `mock` / `callInfo`), variadic too, and parameters NAMED like other members of the generated mock (calls, lock<M>)."""
+    np = rng.randint(1, 4)
+    variadic = rng.random() < 0.35
+    style = rng.choice(["unnamed", "unnamed", "underscore", "underscore", "named"])
+    named_pool = ["calls", "lock" + name, "lockA", "callsParam", "mockParam", "callInfoParam", "s", "n"]
+    rng.shuffle(named_pool)
+    params = []
+    for i in range(np):
+        last_var = variadic and i == np - 1
+        t = rng.choice([x for x in COLLIDE_TYPES if x[3]] if last_var else COLLIDE_TYPES + [TYPE["string"], TYPE["int"]])
+        nm = None if style == "unnamed" else "_" if style == "underscore" and (t in COLLIDE_TYPES or rng.random() < 0.3) else named_pool[i]
+        params.append({"name": nm, "type": t[0], "max": t[2], "variadic": last_var})
+    results = []
+    for i in range(rng.choice([0, 1, 1, 2])):
+        t = rng.choice([TYPE["Mock"], TYPE["CallInfo"], TYPE["error"], TYPE["int"], TYPE["*Mock"]])
+        results.append({"name": None, "type": t[0], "max": t[2]})
+    m = {"name": name, "params": params, "results": results, "variadic": variadic, "collide": True}
+    m["resolved"] = resolved_names(m)
+    if len({exported(x) for x in m["resolved"]}) != len(m["resolved"]):
+        return gen_collide_method(rng, name)
+    return m
+
+
 def gen_iface(rng, name, generic):
     nm = rng.randint(1, 5)
     names = rng.sample(MNAMES, nm)
@@ -175,6 +207,9 @@ def gen_iface(rng, name, generic):
         ms = [gen_method(rng, n, generic) for n in names]
     if rng.random() < 0.45:
         ms.append(gen_long_method(rng, rng.choice(["Transfer", "Dispatch", "Replicate"])))
+    if rng.random() < 0.35:
+        # "Calls" is also a member-like method name: the mock then has CallsFunc, Calls(), CallsCalls()
+        ms.append(gen_collide_method(rng, rng.choice(["Register", "Audit", "Calls"])))
     return {"name": name, "generic": generic, "methods": ms}
 
 
@@ -230,7 +265,10 @@ def views(pkg):
 
 
 def render_pkg(pkg):
-    out = ["package %s" % pkg["name"], "", "type T struct{ X int }", "type MyInt int", ""]
+    out = ["package %s" % pkg["name"], ""]
+    if any("ext." in v["type"] for it in pkg["ifaces"] for m in it["methods"] for v in m["params"] + m["results"]):
+        out += ['import "%s/ext"' % MOD, ""]
+    out += ["type T struct{ X int }", "type MyInt int", "type Mock struct{ X int }", "type CallInfo struct{ X int }", ""]
     for it in pkg["ifaces"]:
         out.append("type %s%s interface {" % (it["name"], "[K comparable, V any]" if it["generic"] else ""))
         for m in it["methods"]:
@@ -263,6 +301,8 @@ def build_module(ctx, pkgs, tag="mod", driver="drv_matryer", race=False):
     (mod / "drv").mkdir(parents=True)
     (mod / "go.mod").write_text("module %s\n\ngo 1.23\n\nrequire github.com/stretchr/testify v1.10.0\n" % MOD)
     shutil.copy(REPO / "go.sum", mod / "go.sum")
+    (mod / "ext").mkdir()
+    (mod / "ext" / "ext.go").write_text("package ext\n\ntype Mock struct{ X int }\ntype CallInfo struct{ X int }\n")
     cfg = ["template: matryer", "filename: mocks_gen.go", 'pkgname: "{{.SrcPackageName}}"', 'dir: "{{.InterfaceDir}}"',
            "force-file-write: true", "packages:"]
     reg = ["package main", "", "import ("]
@@ -298,9 +338,12 @@ def build_module(ctx, pkgs, tag="mod", driver="drv_matryer", race=False):
             cfg += ["    interfaces:"]
             for it in pkg["ifaces"]:
                 cfg += ["      %s:" % it["name"], "        config:", "          template-data:"] + ["            " + x for x in td]
-        reg.append('\t%s "%s/%s"' % (pkg["name"], MOD, pkg["name"]))
+        if not pkg.get("witness"):
+            reg.append('\t%s "%s/%s"' % (pkg["name"], MOD, pkg["name"]))
     reg += [")", "", "func init() {"]
     for pkg in pkgs:
+        if pkg.get("witness"):
+            continue             # known-finding witnesses are only compiled (on their own), never linked into the driver
         for v, it in views(pkg):
             inst = "[string, int]" if it["generic"] else ""
             reg.append('\tregistry["%s"] = func() any { return &%s.%s%s{} }' % (mock_key(v, it), pkg["name"], struct_name(v, it), inst))
@@ -314,6 +357,10 @@ def build_module(ctx, pkgs, tag="mod", driver="drv_matryer", race=False):
     p = run([ctx.bins["mockery"]], cwd=mod, env=env, timeout=1800)
     if p.returncode != 0:
         return None, "mockery failed: " + (p.stdout + p.stderr).decode(errors="replace")[-3000:]
+    for pkg in pkgs:
+        if pkg.get("witness"):
+            pw = run(["go", "build", "./" + pkg["name"]], cwd=mod, env=env, timeout=1800)
+            pkg["witness_result"] = {"compiles": pw.returncode == 0, "stderr": pw.stderr.decode(errors="replace")[-2000:]}
     p = run(["go", "build"] + (["-race"] if race else []) + ["-o", str(mod / "drv.bin"), "./drv"], cwd=mod, env=env, timeout=1800)
     if p.returncode != 0:
         return None, "generated mocks or driver do not compile: " + p.stderr.decode(errors="replace")[-3000:]
@@ -659,7 +706,8 @@ def describe(c, outs=None):
          "all-mocks-of-the-output-file": [{"struct": m["structpat"] % m["iface"], "interface": m["iface"], "via": m["via"], "template-data": m["opts"],
                                            "template-data-as-written": {k: v for k, v in m.get("raw", m["opts"]).items() if v is not None}}
                                           for m in c["pkg"].get("mocks") or []],
-         "interface": [x for x in render_pkg(dict(c["pkg"], ifaces=[it])).split("\n") if x.strip()][3:],
+         "interface": (lambda ls: ls[next((i for i, x in enumerate(ls) if x.startswith("type %s" % it["name"])), 0):])(
+             [x for x in render_pkg(dict(c["pkg"], ifaces=[it])).split("\n") if x.strip()]),
          "history": [json.dumps(o, sort_keys=True) for o in c["hist"]]}
     if outs is not None:
         d["observed"] = [json.dumps(o, sort_keys=True) for o in outs]
@@ -731,6 +779,73 @@ def shrink(binary, c, fails):
     return small, o
 
 
+def report_compile_failures(ctx, broken_pkgs, err):
+    """A generated mock that does not compile is a failing input of C04 itself: none of its methods can be called, so
+    nothing is forwarded or recorded.  For up to 3 broken packages the failure is narrowed down to one interface (mock)
+    and, if possible, one method, by generating and compiling them alone; the compiler message goes into the replay."""
+    def alone(view, it):
+        single = {k: v for k, v in view.items() if k not in ("mocks", "via")}
+        single.update(name="q0", ifaces=[it], level="package")
+        b, e = build_module(ctx, [single], tag="cf")
+        return single, (e if b is None and "do not compile" in (e or "") else None)
+    n = 0
+    for pkg in broken_pkgs[:3]:
+        found = None
+        for v, it in views(pkg):
+            single, e = alone(v, it)
+            if e:
+                found = (single, it, e)
+                if len(it["methods"]) <= 8:
+                    for m in it["methods"]:
+                        s1, e1 = alone(v, dict(it, methods=[m]))
+                        if e1:
+                            found = (s1, s1["ifaces"][0], e1)
+                            break
+                break
+        if found is None:
+            v, it = views(pkg)[0]
+            found = (dict(v), it, err)
+        single, it, msg = found
+        lines = [x for x in msg.split("\n") if "mocks_gen.go" in x][:6]
+        c = {"pkg": single, "iface": it, "hist": []}
+        rp = ctx.write_replay("compile-%s" % pkg["name"], {
+            "what": ["the generated mock of this interface does not compile: none of its methods can be called, nothing is forwarded or recorded"] +
+                    [re.sub(r"^.*?(mocks_gen\.go)", r"\1", x.strip()) for x in lines],
+            "compiler": msg[-3000:], "case": c, "readable": describe(c)})
+        ctx.violation(rp)
+        n += 1
+    return n
+
+
+WITNESS_ID = "C04-matryer-param-template-local"
+
+
+def witness_pkg(idx):
+    """Input class of the known finding: a parameter NAMED like an identifier of the generated method body (mock, callInfo)."""
+    def meth(name, pname, ptype):
+        m = {"name": name, "params": [{"name": pname, "type": ptype, "max": 9, "variadic": False}, {"name": "s", "type": "string", "max": 9, "variadic": False}],
+             "results": [{"name": None, "type": "error", "max": 9}], "variadic": False}
+        m["resolved"] = resolved_names(m)
+        return m
+    return {"name": "p%d" % idx, "opts": dict(COMBOS[1]), "structpat": "Moq%s", "witness": WITNESS_ID,
+            "ifaces": [{"name": "W0", "generic": False, "methods": [meth("A", "mock", "Mock")]},
+                       {"name": "W1", "generic": False, "methods": [meth("B", "callInfo", "int")]}]}
+
+
+def judge_witness(ctx, pkg):
+    known = [k for k in load_known("C04") if k["id"] == pkg["witness"]]
+    res = pkg.get("witness_result") or {}
+    if known and not res.get("compiles", True) and re.search(known[0]["symptom"], res.get("stderr", "")):
+        ctx.known("%s: a parameter named mock / callInfo: the generated matryer mock does not compile (%s)" % (
+            pkg["witness"], re.search(known[0]["symptom"], res["stderr"]).group(0)))
+        return True
+    rp = ctx.write_replay("known-finding-changed", {
+        "what": "the witness of known finding %s no longer shows the listed symptom (compiles: %s); update known/C04.json" % (pkg["witness"], res.get("compiles")),
+        "obligation": "known finding bookkeeping for C04", "compiler": res.get("stderr", ""), "source": render_pkg(pkg)})
+    ctx.violation(rp, nofail=True)
+    return False
+
+
 def check(ctx, only=None):
     gate = proof_gate(ctx)
     if not ctx.build_tree():
@@ -758,6 +873,7 @@ def check(ctx, only=None):
         nmix = 24 if ctx.thorough() else 10
         pkgs += [gen_mixed_pkg(ctx.rng, 8 * reps + i) for i in range(nmix)]      # files whose mocks differ in their options
         ngen = len(pkgs)
+        pkgs.append(witness_pkg(len(pkgs)))          # witness stream of the known finding (compiled alone, never driven)
         nh, hl = (12, 60) if ctx.thorough() else (4, 40)
         cases = []
         for c in corpus_pkgs():
@@ -770,17 +886,20 @@ def check(ctx, only=None):
                 for h in range(nh if not pkg.get("mocks") else max(2, nh // 2)):
                     cases.append({"pkg": v, "iface": it, "hist": gen_history(ctx.rng, it, hl if h else 2 * hl, malformed=(h == nh - 1))})
     binary, err = build_module(ctx, pkgs)
-    compile_fail = None
+    compile_violations = 0
     if binary is None and "do not compile" in err:
-        # some generated files do not compile: keep looking for a failing input with the packages that do
+        # some generated files do not compile: report them (failing inputs) and go on with the packages that do
         broken = set(re.findall(r"\b(p\d+)/mocks_gen\.go", err))
-        if broken and len(broken) < len(pkgs):
-            compile_fail = {"packages": sorted(broken), "errors": err[-2500:],
-                            "sources": [render_pkg(p) for p in pkgs if p["name"] in broken][:3]}
-            keep = [i for i, c in enumerate(cases) if c["pkg"]["name"] not in broken]
-            cases = [cases[i] for i in keep]
+        if broken:
+            bad_pkgs = [p for p in pkgs if p["name"] in broken]
+            cases = [c for c in cases if c["pkg"]["name"] not in broken]
             pkgs = [p for p in pkgs if p["name"] not in broken]
-            binary, err = build_module(ctx, pkgs)
+            if [p for p in pkgs if not p.get("witness")]:
+                binary, err = build_module(ctx, pkgs)
+            compile_violations = report_compile_failures(ctx, bad_pkgs, err or "")
+            if binary is None and compile_violations:
+                ctx.write_evidence(gate, 0, 0, "every generated mock failed to compile", [], extra={"compile_failures": sorted(broken)})
+                return
     if binary is None:
         rp = ctx.write_replay("generate", {"what": err, "obligation": "correspondence for C04: the generated matryer mocks of the generator's "
                                            "interface class (kept inside the class that compiles) no longer generate/compile",
@@ -800,14 +919,13 @@ def check(ctx, only=None):
                                                  "case": {"pkg": small["pkg"], "iface": small["iface"], "hist": small["hist"]},
                                                  "readable": describe(small, so)})
         ctx.violation(rp)
-    if compile_fail and not oracle_fail:
-        rp = ctx.write_replay("generate", {"what": "generated matryer mocks of %d package(s) of the generator's interface class (kept inside the class that "
-                                                   "compiles) no longer compile; the remaining packages showed no failing history" % len(compile_fail["packages"]),
-                                           "obligation": "correspondence for C04 (no implementation to run for these interfaces)", "compile": compile_fail})
-        ctx.violation(rp, nofail=True)
-    if not gate["ok"] and not oracle_fail:
+    for pkg in pkgs:
+        if pkg.get("witness"):
+            judge_witness(ctx, pkg)
+    oracle_fail_any = bool(oracle_fail) or bool(compile_violations)
+    if not gate["ok"] and not oracle_fail_any:
         ctx.violation(gate["replay"], nofail=True)
-    if (bad or errs) and not oracle_fail:
+    if (bad or errs) and not oracle_fail_any:
         detail = []
         for i in bad[:3]:
             def fails(cc, oo):
@@ -831,7 +949,7 @@ def check(ctx, only=None):
         return any(x["k"] == "records" and len(x["l"]) >= 2 for x in o)
     distinct = len({json.dumps([mock_term(c["pkg"], c["iface"]), c["hist"]], sort_keys=True) for c, o in zip(cases, outs) if nontrivial(o)})
     hist = {"ops": {}, "outcomes": {}, "params_per_method": {}, "results_per_method": {}, "param_style": {}, "options": {},
-            "types": {}, "long_name_methods": {}, "long_name_call_list_bytes": {}, "option_level": {}, "nested_ops_in_installed_funcs": {}, "nested_outcomes": {}, "variadic_methods": 0, "generic_interfaces": 0, "methods": 0, "interfaces": 0}
+            "types": {}, "template_identifier_collision_methods": {}, "long_name_methods": {}, "long_name_call_list_bytes": {}, "option_level": {}, "nested_ops_in_installed_funcs": {}, "nested_outcomes": {}, "variadic_methods": 0, "generic_interfaces": 0, "methods": 0, "interfaces": 0}
     hist["mocks_per_mixed_file"], hist["mixed_via"], hist["mixed_option_values"] = {}, {}, {}
     for pkg in pkgs:
         for v, _ in views(pkg):
@@ -855,6 +973,12 @@ def check(ctx, only=None):
             for m in it["methods"]:
                 hist["methods"] += 1
                 hist["variadic_methods"] += m["variadic"]
+                if m.get("collide"):
+                    hist["template_identifier_collision_methods"]["methods"] = hist["template_identifier_collision_methods"].get("methods", 0) + 1
+                    for prm in m["params"]:
+                        key = ("unnamed " if prm["name"] is None else "_ " if prm["name"] == "_" else "named %s " % prm["name"] if prm["name"] in ("calls", "callsParam", "mockParam", "callInfoParam") or prm["name"].startswith("lock") else "") + \
+                              ("..." if prm["variadic"] else "") + prm["type"]
+                        hist["template_identifier_collision_methods"][key] = hist["template_identifier_collision_methods"].get(key, 0) + 1
                 if m.get("long"):
                     w = sum(len(x) + 2 for x in m["resolved"]) + (3 if m["variadic"] else 0)
                     key = ("variadic ..." + m["params"][-1]["type"]) if m["variadic"] else "non-variadic"
